@@ -307,6 +307,10 @@ where
     for i in 0..n {
         js.extend([64 + i, 128 + i, (1usize << 32) + i, usize::MAX - 63 + i]);
     }
+    if seq.len() > 1 {
+        // deeper histories: the two indices just beyond the list
+        js = vec![n, n + 1];
+    }
     js.retain(|j| *j >= n);
     js.sort();
     js.dedup();
@@ -444,7 +448,7 @@ pub fn replay(case: &Value) -> i32 {
 
 pub fn run(tier: Tier) -> i32 {
     let mut rep = Report::new("C09", tier);
-    rep.rule = "explicit-state exploration: state = (base expression, form, index history), actions = partial(i) for every i in 0..n_vars+1 (two out-of-range indices; in every state also out-of-range indices around 64, 128, 2^32 and usize::MAX incl. the aliases of the valid indices modulo 64 and 2^32, alone and after / before valid ones), histories of length 0..4; in every state: variable list unchanged, same slice evaluates, partial_iter / partial_iter_relaxed of the history = sequential partials, partial_nth = repeated partial, order 0 = identity, mixed partials equal in either order, out-of-range indices rejected by partial / partial_nth / partial_iter before any number is constructed; equalities are structural or decided exactly over Q (rational fragment) / by rounding bounds (else); distinct = unique structural dumps; non-trivial = history with at least one partial".into();
+    rep.rule = "explicit-state exploration: state = (base expression, form, index history), actions = partial(i) for every i in 0..n_vars+1 (two out-of-range indices; in the states reached by at most one step also out-of-range indices around 64, 128, 2^32 and usize::MAX incl. the aliases of the valid indices modulo 64 and 2^32, alone and after / before valid ones), histories of length 0..4; in every state: variable list unchanged, same slice evaluates, partial_iter / partial_iter_relaxed of the history = sequential partials, partial_nth = repeated partial, order 0 = identity, mixed partials equal in either order, out-of-range indices rejected by partial / partial_nth / partial_iter before any number is constructed; equalities are structural or decided exactly over Q (rational fragment) / by rounding bounds (else); distinct = unique structural dumps; non-trivial = history with at least one partial".into();
     rep.assumptions = vec!["'work' is observed through a counter on the data type's From<u8>/From<f32> conversions, which only differentiation and the neutral-element shortcuts request".into()];
     install_panic_hook();
     let t = num_table();
